@@ -226,8 +226,16 @@ def h2_case(cid, rng):
             # a model with dominance: the narrow-sense target refers to the variance of the breeding values, the broad-sense
             # target to the variance of the genotypic values (what the trial records carry)
             from pybrops.model.gmod.DenseAdditiveDominanceLinearGenomicModel import DenseAdditiveDominanceLinearGenomicModel
+            P = rng.choice([2, 2, 4, 3])
+            if P != 2:
+                # a polyploid population: a locus is heterozygous when the individual carries both alleles (dosage neither 0 nor
+                # the ploidy) -- the indicator the model's genotypic values use
+                from pybrops.popgen.gmat.DensePhasedGenotypeMatrix import DensePhasedGenotypeMatrix
+                php = np.array([[[rng.randrange(2) for _ in range(p)] for _ in range(n)] for _ in range(P)], dtype="int8")
+                pg = DensePhasedGenotypeMatrix(php, taxa=np.asarray(pg.taxa), taxa_grp=np.asarray(pg.taxa_grp))
+                c["ploidy"] = P
             ph = np.asarray(pg.mat).astype(int)
-            Z = ph[0] + ph[1]; H = (Z == 1).astype(int)
+            Z = ph.sum(0); H = ((Z != 0) & (Z != P)).astype(int)
             ud = np.array([[rng.choice([-2, -1, 1, 2, 3]) for _ in range(T)] for _ in range(p)], dtype=float)
             gm = DenseAdditiveDominanceLinearGenomicModel(beta=np.asarray(gm.beta, float), u_misc=None, u_a=np.asarray(gm.u_a, float), u_d=ud,
                                                          trait=np.asarray(gm.trait))
